@@ -289,6 +289,9 @@ func (cli *Client) EnrollContext(c net.Conn, ctx any) (Conn, error) {
 	if err = el.awaitRegistration(gc, connOpened); err != nil {
 		return nil, err
 	}
+	if ccb.err != nil {
+		return nil, ccb.err
+	}
 
 	return gc, nil
 }
